@@ -11,6 +11,8 @@ import (
 	"strings"
 
 	"github.com/IBM/sarama"
+	"github.com/spf13/viper"
+	"go.uber.org/zap"
 
 	"github.com/linkedin/Burrow/core/protocol"
 	"github.com/linkedin/Burrow/core/verifhook"
@@ -229,6 +231,20 @@ func mutateField(b []byte, f wfield, val int64, delta bool) []byte {
 func genDecode(g *gen) {
 	cfgs := [][2]string{{"-", "-"}, {"-", "-"}, {hexName("^g"), "-"}, {"-", hexName("1$")}, {hexName("g"), hexName("^x|ü")}}
 	n := 60 * g.scale
+	for i := 0; i < 12*g.scale; i++ {
+		// the configuration phase of the consumer module: which lists it ends up with
+		lst := func(pats ...string) string {
+			switch g.intn(4) {
+			case 0:
+				return "-"
+			case 1:
+				return "E"
+			}
+			return hexName(g.pickS(pats...))
+		}
+		g.newCase()
+		g.emit("D kconf %s %s", lst("^g", "^g[01]", "a$"), lst("1$", "^x", "team"))
+	}
 	for i := 0; i < n; i++ {
 		curCfg = cfgs[g.intn(len(cfgs))]
 		var k, v *wenc
@@ -326,9 +342,11 @@ func genDecode(g *gen) {
 // ---- real-code driver ------------------------------------------------------------------------------
 
 type decodeRunner struct {
-	app         *protocol.ApplicationContext
-	client      *verifhook.KafkaClient
-	allow, deny *regexp.Regexp
+	app             *protocol.ApplicationContext
+	client          *verifhook.KafkaClient
+	allow, deny     *regexp.Regexp
+	allowRe, denyRe *regexp.Regexp
+	kconfN          int
 }
 
 func showReq(r *protocol.StorageRequest) string {
@@ -405,8 +423,51 @@ func runDecode(r *runner) {
 		case "cfg":
 			allow, deny := unhexName(f[2]), unhexName(f[3])
 			d.client = verifhook.NewKafkaClient(d.app, "verifconsumer", "c0", allow, deny)
+			d.allowRe, d.denyRe = nil, nil
+			if allow != "" {
+				d.allowRe = regexp.MustCompile(allow)
+			}
+			if deny != "" {
+				d.denyRe = regexp.MustCompile(deny)
+			}
 			r.resolve("D cfg")
 			r.reply("ok")
+		case "kconf":
+			// D kconf <allowRe> <denyRe>  ("-" = key absent, "E" = present with the empty string): the REAL Configure of the
+			// Kafka consumer module on such a section; prints its verdict on a few group names.  resolved: + match bits
+			d.kconfN++
+			name := fmt.Sprintf("kconf%d", d.kconfN)
+			root := "consumer." + name
+			viper.Set("cluster.kc.class-name", "kafka")
+			viper.Set(root+".class-name", "kafka")
+			viper.Set(root+".cluster", "kc")
+			viper.Set(root+".servers", []string{"broker1:9092"})
+			bits := [2]string{"-", "-"}
+			for i, key := range []string{"group-allowlist", "group-denylist"} {
+				switch f[2+i] {
+				case "-":
+				case "E":
+					viper.Set(root+"."+key, "")
+				default:
+					pat := unhexName(f[2+i])
+					viper.Set(root+"."+key, pat)
+					re := regexp.MustCompile(pat)
+					b := ""
+					for _, smp := range sconfSamples {
+						b += bit(re.MatchString(smp))
+					}
+					bits[i] = b
+				}
+			}
+			r.resolve("%s %s %s", line, bits[0], bits[1])
+			r.reply("%s", guard(func() string {
+				c := verifhook.ConfigureKafkaClient(&protocol.ApplicationContext{Logger: zap.NewNop()}, name, root)
+				acc := ""
+				for _, smp := range sconfSamples {
+					acc += bit(c.Accept(smp))
+				}
+				return "kconf acc=" + acc
+			}))
 		case "msg":
 			var key, value []byte
 			if f[3] != "-" {
@@ -423,7 +484,9 @@ func runDecode(r *runner) {
 				if l >= 0 && 4+l <= len(key) {
 					group = string(key[4 : 4+l])
 				}
-				if !d.client.Accept(group) {
+				// decided here from the configured patterns (not by asking the module): tracked iff the allowlist, if set,
+				// matches and the denylist, if set, does not
+				if (d.allowRe != nil && !d.allowRe.MatchString(group)) || (d.denyRe != nil && d.denyRe.MatchString(group)) {
 					acc = 0
 				}
 			}
